@@ -3,14 +3,24 @@
    similar credential header values  (internal/protocols/httpp/handler_logger.go dumpRequest,
    requestHeadersToRedact; reached through handlerLogger of httpp.Server at log level debug).
 
-   A request is a sequence of header lines as a client writes them (any spelling of the name).
-   The HTTP server canonicalizes names before the handler sees them.
-   Layer 1: the dump prints every header line; the value is replaced when the canonical name is
-            in the code's list.
-   Layer 2 (statement): no value of a credential header occurs in the dump.                    *)
+   A request is a protocol version plus a sequence of header lines as a client writes them (any
+   spelling of the name). The HTTP server canonicalizes names before the handler sees them
+   (HTTP/2 and HTTP/3 carry them in lowercase on the wire).
+   Layer 1: the dump prints every header line; the value is replaced when the name, as looked up,
+            is in the code's list (canonical-case keys). The lookup uses the canonical name for every
+            protocol version (LowerBeforeLookup = FALSE, the current code).
+            Named regression "LowercasedNameLookup" (LowerBeforeLookup = TRUE): for ProtoMajor >= 2 the
+            name is lowercased for display BEFORE the lookup, which then never matches
+            (DumpReq_lowerlookup.cfg must violate DumpRedacts).
+   Layer 2 (statement): no value of a credential header occurs in the dump - whatever the protocol. *)
 EXTENDS VerifCommon
 
-CONSTANT MaxHeaders
+CONSTANTS MaxHeaders,
+          Protos,               \* protocol versions of the requests (subset of DOMAIN ProtoMajor)
+          LowerBeforeLookup
+
+ProtoMajor == ("HTTP/1.0" :> 1) @@ ("HTTP/1.1" :> 1) @@ ("HTTP/2.0" :> 2) @@ ("HTTP/3.0" :> 3)
+ASSUME Protos \subseteq DOMAIN ProtoMajor
 
 \* canonical name -> spellings a client may use
 Spellings ==
@@ -38,24 +48,27 @@ AllSpellings == UNION {Spellings[c] : c \in DOMAIN Spellings}
 Line(sp, k) == [name |-> sp, value |-> k]
 
 \* layer 1
-DumpLine(l) == [name |-> Canon(l.name), shown |-> IF Canon(l.name) \in RedactList THEN 0 ELSE l.value]   \* 0 = "<redacted>"
-Dump(req) == [i \in 1..Len(req) |-> DumpLine(req[i])]
+\* the key with which requestHeadersToRedact is consulted; "lower:<name>" stands for the lowercased name,
+\* which is no key of the (canonical-case) list unless the canonical name is itself lowercase (none is)
+LookupKey(l, pr) == IF LowerBeforeLookup /\ ProtoMajor[pr] >= 2 THEN "lower:" \o Canon(l.name) ELSE Canon(l.name)
+DumpLine(l, pr) == [name |-> Canon(l.name), shown |-> IF LookupKey(l, pr) \in RedactList THEN 0 ELSE l.value]   \* 0 = "<redacted>"
+Dump(req, pr) == [i \in 1..Len(req) |-> DumpLine(req[i], pr)]
 
 \* layer 2
 NoCredentialValue(req, dump) ==
     \A i \in 1..Len(req) : Canon(req[i].name) \in CredentialHeaders =>
         \A j \in 1..Len(dump) : dump[j].shown # req[i].value
 
-VARIABLES req, done
-vars == <<req, done>>
-Init == req = <<>> /\ done = FALSE
-Add(sp) == ~done /\ Len(req) < MaxHeaders /\ req' = Append(req, Line(sp, Len(req) + 1)) /\ UNCHANGED done
-Send == ~done /\ req # <<>> /\ done' = TRUE /\ UNCHANGED req
+VARIABLES req, proto, done
+vars == <<req, proto, done>>
+Init == req = <<>> /\ proto \in Protos /\ done = FALSE
+Add(sp) == ~done /\ Len(req) < MaxHeaders /\ req' = Append(req, Line(sp, Len(req) + 1)) /\ UNCHANGED <<proto, done>>
+Send == ~done /\ req # <<>> /\ done' = TRUE /\ UNCHANGED <<req, proto>>
 Next == Send \/ \E sp \in AllSpellings : Add(sp)
 Spec == Init /\ [][Next]_vars
 
-DumpRedacts == done => NoCredentialValue(req, Dump(req))
-EmitCases == done => Emit("HDRCASE", [headers |-> [i \in 1..Len(req) |->
+DumpRedacts == done => NoCredentialValue(req, Dump(req, proto))
+EmitCases == done => Emit("HDRCASE", [proto |-> proto, major |-> ProtoMajor[proto], headers |-> [i \in 1..Len(req) |->
                          [name |-> req[i].name, canon |-> Canon(req[i].name), value |-> req[i].value,
                           credential |-> Canon(req[i].name) \in CredentialHeaders]]])
 
